@@ -170,6 +170,34 @@ def run(st, tier, seed):
                 reqs.append(rq); meta.append((inp, s_re["tree"]))
             if len(res.samples) < 1:
                 res.sample({"source": b.texts, "snapshot_head": json.dumps(s_re["tree"])[:400]})
+    # directed: a user sequence with a name of the reserved form _Anon<k> that meets the process's anonymous counter, at the
+    # super-sequence site and at the strand site (defect F16).  The compiler must reject it, or what it saves must match its .pil
+    for k in range(4 if tier == "quick" else 40):
+        site = "sup" if k % 2 == 0 else "strand"
+        nme = "_Anon%d" % (impl.anon_counter() + (0 if rng.random() < 0.7 else 1))
+        L = rng.randint(1, 5)
+        text = ('declare component T: ->\nsequence a = "4N"\nsequence %s = "%dN"\n' % (nme, L)) + \
+               ('sequence S = "3N" a\nstrand X = S %s\nstructure M = X : %d.\n' % (nme, 7 + L) if site == "sup" else
+                'sequence S = a a\nstrand X = "3N" S %s\nstructure M = X : %d.\n' % (nme, 11 + L))
+        fb = progen.Bundle(); fb.texts["t.comp"] = text; fb.entry = "t"
+        res.count("directed:reserved-name-at-" + site)
+        with core.scratch("pepper_c16r_") as d:
+            try:
+                out = pipeline.run_pipeline(fb, rng, d)
+            except pipeline.Stage as e:
+                if e.stage != "compile":
+                    res.violations.append({"what": "a program with a user sequence named %s is accepted, but stage '%s' fails on the state saved by that compile: %r" % (nme, e.stage, e.exc),
+                                           "input": {"files": fb.texts, "entry": "t", "anon_counter": nme}, "sig": "C16:reserved-name:" + e.stage,
+                                           "cmd": "pepper-compiler t; pepper-design-spurious; pepper-finish"})
+                continue
+            res.evaluations += 1
+            r = sub([os.path.join(core.HERE, "snapshot.py"), "out.save"], d)
+            if r.returncode == 0:
+                s_re = json.loads(r.stdout)
+                pn, sn = pil_names(out["pil"]), snap_names(s_re["tree"])
+                if s_re["problems"] or pn != sn:
+                    res.violations.append({"what": "reserved-name program accepted and its saved state differs from its .pil: %s" % (s_re["problems"] or "names/lengths")[:200],
+                                           "input": {"files": fb.texts, "entry": "t"}, "sig": "C16:reserved-name:names", "cmd": "pepper-compiler t"})
     res.programs = res.evaluations
     if drv is not None and reqs:
         got = drv.call_many(reqs)
